@@ -215,12 +215,21 @@ def rule_b(R, ctx, rid="C17.b"):
     return {"visibility_helpers": sorted(helpers)}
 
 
+FORMAT_FUNCS = (
+    "yrs::transaction::TransactionMut::cleanup_fmt_gap", "yrs::transaction::TransactionMut::cleanup_fmt_gap_contextless",
+    "yrs::transaction::TransactionMut::cleanup_text_fmt", "yrs::types::text::clean_format_gap", "yrs::types::text::minimize_attr_changes",
+    "yrs::types::text::insert_negated_attributes", "yrs::types::text::insert_format", "yrs::types::text::find_position",
+    "yrs::block::ItemPosition::forward", "yrs::types::text::DiffAssembler::process",
+)
+
+
 def rule_c(R, ctx, rid="C17.c"):
     Y = ctx.yrs
-    R.rule(rid, "R-GUARD attribute bookkeeping: every call of text::update_current_attributes (the accumulation of formatting "
-                "marks into the attributes in effect) is reached only through a liveness test of the mark's item "
-                "(!is_deleted / a verified visibility helper), or takes its marks from a local map that is filled only under "
-                "such a test — tombstoned marks never contribute to current attributes on any read or edit path")
+    R.rule(rid, "R-GUARD attribute bookkeeping: in the functions that track formatting (position walks, format insertion and "
+                "minimisation, the three clean-ups, the diff renderer) every call that consumes the key or value of a formatting "
+                "mark — update_current_attributes, look-ups / insertions / removals in attribute tables, comparisons — is reached "
+                "only through a liveness test of the mark's item (!is_deleted / a verified visibility helper), or takes its marks "
+                "from a local map that is filled only under such a test: tombstoned marks never take part in attribute decisions")
     helpers = positive_helpers(Y)
 
     def vis_lit(l):
@@ -233,16 +242,37 @@ def rule_c(R, ctx, rid="C17.c"):
         t = simp(l.term)
         return t[0] == "call" and t[1] in helpers and l.polarity is True
 
+    def consumes_mark(v, cs):
+        for i in range(len(cs.args)):
+            if any(x[0] == "field" and x[1].startswith("yrs::block::ItemContent::Format.") for x in walk(v.arg(cs, i, 10))):
+                return True
+        return False
     n = 0
+    sites = []
+    for fp in FORMAT_FUNCS:
+        fn = Y.fn(fp)
+        v = FnView(fn)
+        for cs in fn.calls():
+            nm = F.strip_generics(cs.name)
+            if nm.endswith("is_deleted") or "Deref" in nm or re.search(r"::(clone|as_ref|deref|drop)$", nm):
+                continue
+            if consumes_mark(v, cs):
+                sites.append((fn, v, cs))
+    # update_current_attributes anywhere else in the crate as well
     for root, css in sorted(callers_of(Y, "yrs::types::text::update_current_attributes").items()):
-        for cs, site in ordinal_sites(css):
-            fn = cs.fn
-            v = FnView(fn)
+        for cs in css:
+            if not any(cs is s[2] or (cs.fn is s[0] and cs.bb == s[2].bb) for s in sites):
+                sites.append((cs.fn, FnView(cs.fn), cs))
+    byfn = {}
+    for fn, v, cs in sites:
+        byfn.setdefault(fn.path, []).append((fn, v, cs))
+    for fpath in sorted(byfn):
+        lst = byfn[fpath]
+        for (fn, v, cs), site in zip(lst, [s for _, s in ordinal_sites([c for _, _, c in lst])]):
             n += 1
             ok = v.necessary_any(cs.bb, vis_lit)
             why = "liveness literal on every path"
             if not ok:
-                # marks taken from a local map: every insert into a HashMap in this function must be under a liveness test
                 ins = fn.calls_to("std::collections::HashMap::insert")
                 it = any(term_has_call(v.arg(cs, i, 16), "re:HashMap.*::(into_iter|iter|values|drain)$", "re:hash_map::.*::next$")
                          for i in range(1, len(cs.args)))
@@ -250,10 +280,9 @@ def rule_c(R, ctx, rid="C17.c"):
                     ok = True
                     why = "marks come from a local map whose %d insert(s) are all under a liveness test" % len(ins)
             R.ob(rid, fn, site, ok, why if ok else
-                 "a formatting mark is accumulated into the current attributes with no liveness test of its item on some path "
-                 "(guards: %s): a tombstoned mark changes the attributes computed after it" % v.guard_descs(cs.bb)[:4], cs.loc())
-    R.floor(rid, "update_current_attributes call sites", n, 5)
-
+                 "the key or value of a formatting mark is consumed with no liveness test of its item on some path (guards: %s): a "
+                 "tombstoned mark takes part in an attribute decision" % v.guard_descs(cs.bb)[:4], cs.loc())
+    R.floor(rid, "calls consuming a formatting mark", n, 35)
 
 POSITIONAL_TRAVERSALS = (
     "yrs::block_iter::BlockIter::backward", "yrs::block_iter::BlockIter::delete", "yrs::block_iter::BlockIter::slice",
